@@ -16,6 +16,6 @@ func init() {
 	debug.SetGCPercent(1600)
 }
 
-func TestMain(m *testing.M) { pbt.Main(m) }
-func TestProps(t *testing.T) { pbt.RunAll(t) }
+func TestMain(m *testing.M)   { pbt.Main(m) }
+func TestProps(t *testing.T)  { pbt.RunAll(t) }
 func TestReplay(t *testing.T) { pbt.ReplayAll(t) }
